@@ -1,5 +1,5 @@
 # C05 -- every node carries a valid, nested, ordered and faithful source range
-import sys, os
+import sys, os, re
 sys.path.insert(0, os.path.dirname(os.path.dirname(os.path.abspath(__file__))))
 from lib import hx, unhx
 import mdgen, corpus
@@ -28,7 +28,9 @@ def biased_doc(rng):
 
 
 FIXED = ["a\n\n*b*", "-\tfoo *x*", "x\n\nfoo \nbar", ">+   \n`", ">\t<", "+ é\n\t&amp;**", "1. > # b  \n   c", "> a\n> *b\n> c*", "- a\n\n  b *c*\n", "\t\tfoo *a*",
-         "  - a\n\n\t b", "> \tcode", ">\t\tx *y*", "*a\nb*", "[a\nb](u)", "`a\nb`", "a  \nb", "a\\\nb", "# h *e*", "h *e*\n===", "é*é*é", "&amp;\\*", "<http://a.b>\n\n<c@d.e>"]
+         "  - a\n\n\t b", "> \tcode", ">\t\tx *y*", "*a\nb*", "[a\nb](u)", "`a\nb`", "a  \nb", "a\\\nb", "# h *e*", "h *e*\n===", "é*é*é", "&amp;\\*", "<http://a.b>\n\n<c@d.e>",
+         # witness of known finding F13 (split tab inside a code span) and neighbours that must be fine
+         ">``\n>\t``", "> `a\n>\t b`", "- `a\n\t b`", ">\t`a b`", "> `a\tb`"]
 
 
 def cases(rng, tier, Case):
@@ -78,6 +80,11 @@ def ranges_ok(src, nodes):
             if n.parent is not None and n.parent.kind in ("CodeInline", "Autolink"):
                 pass
             if seg != text_arg(n):
+                # known finding F13: inside a code span, a tab split by a container marker appears as the 1-3 spaces it expands to
+                segs = [seg] + ([seg + b"\t"] if src[n.end:n.end + 1] == b"\t" else [])
+                if n.parent is not None and n.parent.kind == "CodeInline" and any(b"\t" in sg and
+                        re.fullmatch(b"".join((b" {1,3}" if bytes([c]) == b"\t" else re.escape(bytes([c]))) for c in sg), text_arg(n)) for sg in segs):
+                    return "SPLITTAB Text node [%d,%d) in a code span selects %r but holds the expansion %r of a split tab" % (n.start, n.end, seg[:40], text_arg(n)[:40])
                 return "Text node [%d,%d) selects %r but its content is %r" % (n.start, n.end, seg[:40], text_arg(n)[:40])
         if n.kind == "TextSpecial" and seg != text_arg(n, 1):
             return "TextSpecial [%d,%d) selects %r but its markup is %r" % (n.start, n.end, seg[:40], text_arg(n, 1)[:40])
@@ -97,7 +104,7 @@ def nontrivial(case, io):
 
 
 def known_match(k, case, io, msg):
-    return False
+    return k.get("class") == "split-tab-code-span" and msg.startswith("SPLITTAB ")
 
 
 def shrink(case, hb, drv, Case, lib):
